@@ -299,6 +299,9 @@ def gen_query(rng, rows):
             q.append([g, str(rng.choice([F(-1000), F(1000), lv[0] - 1, lv[-1] + 1]))])
     if rng.random() < 0.15:
         q.append([-1, str(rng.choice([F(0), F(1, 2), F(1)]))])
+    # the implementation sees float(score): keep only query scores that binary64 represents exactly (a midpoint or an
+    # offset of two 53-bit values can need 54 bits; such a score would reach fairlearn rounded and the exact model not)
+    q = [[g, sc] for g, sc in q if F(float(F(sc))) == F(sc)]
     rng.shuffle(q)
     return q
 
